@@ -46,7 +46,58 @@ StripVerdict ==
                                      ELSE ~ObsHasAnn(T.obs, a) \/ ObsAnn(T.obs, a) = BindAttrs(<<>>, AtomDialect)
                                 /\ \A p \in ToSet(T.obs.ann) : p[1] \in 0..(n - 1) ]
 
-Verdict == StripVerdict
+(* ---------------------------------------------------------------------- *)
+(* C08: fragment text -> read_fragments -> write_cgsmiles_fragments -> text' *)
+(* record: [mode |-> "rt", coarse, toks, toks2, written, tokenizable,     *)
+(*          wit (atom i of toks -> atom of toks2, 1-based),               *)
+(*          f1, f2 : fragment graphs read by the implementation from text / text'] *)
+(* ---------------------------------------------------------------------- *)
+RECURSIVE CountOf(_, _, _)
+CountOf(seq, x, i) == IF i > Len(seq) THEN 0 ELSE (IF seq[i] = x THEN 1 ELSE 0) + CountOf(seq, x, i + 1)
+SameBag(s1, s2) == Len(s1) = Len(s2) /\ \A x \in ToSet(s1) \cup ToSet(s2) : CountOf(s1, x, 1) = CountOf(s2, x, 1)
+
+SpecIso(d0, d1, w, coarse) ==
+  /\ Len(w) = Len(d0.atoms) /\ Len(d0.atoms) = Len(d1.atoms)
+  /\ \A i \in DOMAIN w : w[i] \in DOMAIN d1.atoms
+  /\ \A i, j \in DOMAIN w : i # j => w[i] # w[j]
+  /\ \A i \in DOMAIN w : LET a == d0.atoms[i] b == d1.atoms[w[i]] IN
+        /\ a.el = b.el /\ a.ch = b.ch /\ a.ar = b.ar
+        /\ SameBag([j \in DOMAIN d0.desc[i] |-> DescString(d0.desc[i][j])], [j \in DOMAIN d1.desc[w[i]] |-> DescString(d1.desc[w[i]][j])])
+  /\ {<<FPair(w[e[1] + 1] - 1, w[e[2] + 1] - 1)[1], FPair(w[e[1] + 1] - 1, w[e[2] + 1] - 1)[2], e[3]>> : e \in d0.bonds} = d1.bonds
+
+(* the implementation's own graphs: nodes <<el, chg, arom, desc strings>>, edges <<a, b, o2>> (0-based) *)
+ReadIso(f1, f2, w) ==
+  /\ Len(w) = Len(f1.nodes) /\ Len(f1.nodes) = Len(f2.nodes)
+  /\ \A i \in DOMAIN w : w[i] \in DOMAIN f2.nodes
+  /\ \A i, j \in DOMAIN w : i # j => w[i] # w[j]
+  /\ \A i \in DOMAIN w : /\ f1.nodes[i][1] = f2.nodes[w[i]][1] /\ f1.nodes[i][2] = f2.nodes[w[i]][2]
+                           /\ f1.nodes[i][3] = f2.nodes[w[i]][3] /\ SameBag(f1.nodes[i][4], f2.nodes[w[i]][4])
+  /\ {<<FPair(w[e[1] + 1] - 1, w[e[2] + 1] - 1)[1], FPair(w[e[1] + 1] - 1, w[e[2] + 1] - 1)[2], e[3]>> : e \in ToSet(f1.edges)}
+       = {<<e[1], e[2], e[3]>> : e \in ToSet(f2.edges)}
+
+RtVerdict ==
+  LET dom == InGrammarF(T.toks, T.coarse) /\ AnnOKF(T.toks) IN
+  IF ~dom THEN [dom |-> FALSE]
+  ELSE LET gram2 == T.tokenizable /\ InGrammarF(T.toks2, T.coarse)
+           d0 == DenoteF(T.toks, T.coarse) IN
+       [ dom |-> TRUE,
+         ndesc |-> Cardinality({i \in DOMAIN T.toks : T.toks[i].k = "D"}),
+         C08_Written |-> T.written,
+         C08_InGrammar |-> T.written => gram2,
+         C08_SpecIso |-> (T.written /\ gram2) => SpecIso(d0, DenoteF(T.toks2, T.coarse), T.wit, T.coarse),
+         C08_ReadIso |-> (T.written /\ T.f2.outcome = "ok") => ReadIso(T.f1, T.f2, T.wit),
+         C08_ReadBack |-> T.written => T.f2.outcome = "ok" ]
+
+(* C08 second half: the molecule resolved from the re-written complete string equals the original one *)
+WholeVerdict ==
+  [ dom |-> TRUE,
+    C08_WholeWritten |-> T.written,
+    C08_WholeResolves |-> T.written => T.f2.outcome = "ok",
+    C08_Whole |-> (T.written /\ T.f2.outcome = "ok") => ReadIso(T.f1, T.f2, T.wit) ]
+
+Verdict == CASE T.mode = "rt" -> RtVerdict
+             [] T.mode = "whole" -> WholeVerdict
+             [] OTHER -> StripVerdict
 
 Init == tid \in 1..Len(Traces) /\ done = FALSE
 Next == /\ done = FALSE /\ done' = TRUE /\ tid' = tid
